@@ -94,3 +94,157 @@ func PickLineWidth(r *fw.Rng, L int) int {
 	}
 	return 0
 }
+
+// VarMSA is a reference row (gapped where some query has an insertion) and
+// query rows of the same width.
+type VarMSA struct {
+	RefRow string
+	Rows   []FastaRec
+}
+
+// VarProfile tunes MakeVariantMSA.
+type VarProfile struct {
+	PSub, PAmbig, PDel float64
+	MaxInsSites        int
+	MaxDelLen          int
+	PQ                 float64 // '?' symbols
+	Recur              bool    // queries share mutations (for aggregate frequencies)
+}
+
+func DefaultVarProfile() VarProfile {
+	return VarProfile{PSub: 0.08, PAmbig: 0.3, PDel: 0.02, MaxInsSites: 3, MaxDelLen: 12, PQ: 0.003}
+}
+
+// MakeVariantMSA builds nq query rows aligned to ref.
+func MakeVariantMSA(r *fw.Rng, ref string, nq int, p VarProfile) VarMSA {
+	L := len(ref)
+	// insertion sites: after[k] reference bases, width w
+	type site struct{ after, w int }
+	var sites []site
+	ns := r.Intn(p.MaxInsSites + 1)
+	used := map[int]bool{}
+	for i := 0; i < ns; i++ {
+		a := r.Range(0, L)
+		switch r.Intn(6) {
+		case 0:
+			a = 0
+		case 1:
+			a = L
+		}
+		if used[a] {
+			continue
+		}
+		used[a] = true
+		sites = append(sites, site{a, r.Range(1, 6)})
+	}
+	for i := 1; i < len(sites); i++ {
+		for j := i; j > 0 && sites[j].after < sites[j-1].after; j-- {
+			sites[j], sites[j-1] = sites[j-1], sites[j]
+		}
+	}
+	// shared pool of edits for recurrence
+	type edit struct {
+		pos int
+		b   byte
+	}
+	var pool []edit
+	for i := 0; i < 12; i++ {
+		pp := r.Intn(L)
+		pool = append(pool, edit{pp, OtherBase(r, ref[pp])})
+	}
+	build := func(base []byte, insFill map[int]string) string {
+		var sb strings.Builder
+		si := 0
+		for pos := 0; pos <= L; pos++ {
+			for si < len(sites) && sites[si].after == pos {
+				f, ok := insFill[si]
+				if !ok {
+					f = strings.Repeat("-", sites[si].w)
+				}
+				sb.WriteString(f)
+				si++
+			}
+			if pos < L {
+				sb.WriteByte(base[pos])
+			}
+		}
+		return sb.String()
+	}
+	var out VarMSA
+	out.RefRow = build([]byte(ref), nil)
+	for qi := 0; qi < nq; qi++ {
+		b := []byte(ref)
+		if p.Recur {
+			for _, e := range pool {
+				if r.Chance(0.4) {
+					b[e.pos] = e.b
+				}
+			}
+		}
+		for i := range b {
+			if r.Chance(p.PSub) {
+				switch {
+				case r.Chance(p.PAmbig):
+					b[i] = ambigAll[r.Intn(len(ambigAll))]
+				case r.Chance(p.PQ * 10):
+					b[i] = '?'
+				default:
+					b[i] = OtherBase(r, b[i])
+				}
+			}
+		}
+		// deletions
+		nd := 0
+		for i := 0; i < L; i++ {
+			if r.Chance(p.PDel) && nd < 6 {
+				n := r.Range(1, p.MaxDelLen)
+				if r.Chance(0.3) {
+					n = r.Range(1, 3)
+				}
+				for k := i; k < i+n && k < L; k++ {
+					b[k] = '-'
+				}
+				i += n
+				nd++
+			}
+		}
+		if r.Chance(0.1) {
+			for k := 0; k < r.Range(1, 5) && k < L; k++ {
+				b[k] = '-'
+			}
+		}
+		if r.Chance(0.1) {
+			for k := L - 1; k >= L-r.Range(1, 5) && k >= 0; k-- {
+				b[k] = '-'
+			}
+		}
+		fill := map[int]string{}
+		for si, s := range sites {
+			if r.Chance(0.45) {
+				f := []byte(Genome(r, s.w))
+				// partial insertions: some columns stay gaps
+				if r.Chance(0.4) {
+					for k := range f {
+						if r.Chance(0.4) {
+							f[k] = '-'
+						}
+					}
+				}
+				fill[si] = string(f)
+			}
+		}
+		row := build(b, fill)
+		if r.Chance(0.15) {
+			rb := []byte(row)
+			for i := range rb {
+				if rb[i] >= 'A' && rb[i] <= 'Z' && r.Chance(0.3) {
+					rb[i] += 32
+				}
+			}
+			row = string(rb)
+		}
+		id, desc := MakeHeader(r, qi)
+		out.Rows = append(out.Rows, FastaRec{ID: id, Desc: desc, Seq: row})
+	}
+	return out
+}
